@@ -1,6 +1,7 @@
 //! plv-harness: correspondence engines between the Lean model and the real crate (DESIGN §4).
 //!   plv-harness gen <engine> <seed> <tier>            -> ops on stdout
 //!   plv-harness run <ops-file> <model-in> <impl-out>   -> executes ops against the crate
+mod codec;
 mod conc;
 mod gens;
 mod proto;
@@ -34,6 +35,7 @@ fn main() {
                         "seq" => gens::gen_seq(seed, if thorough { 20_000 } else { 1_500 }, if thorough { 120 } else { 40 }, false, false, &sink),
                         "conc" => gens::gen_conc(seed, if thorough { 3_000 } else { 150 }, if thorough { 40 } else { 12 }, &sink),
                         "concx" => gens::gen_concx(seed, if thorough { 200 } else { 40 }, &sink),
+                        "codec" => codec::gen_codec(seed, if thorough { 3_000 } else { 300 }, if thorough { 20_000 } else { 1_500 }, &sink),
                         "queue" => gens::gen_queue(seed, if thorough { 60_000 } else { 4_000 }, if thorough { 60 } else { 30 }, &sink),
                         "seq0" => gens::gen_seq(seed, if thorough { 20_000 } else { 1_500 }, if thorough { 120 } else { 40 }, true, false, &sink),
                         "seqr" => gens::gen_seq(seed, if thorough { 20_000 } else { 1_500 }, if thorough { 120 } else { 40 }, true, true, &sink),
